@@ -547,6 +547,11 @@ _TAIL = """        keys = list(self.calculated_temperatures.keys())
 """
 
 VARIANTS = [
+    Variant("per-list record of evaluations emptied once before the loop over candidate lists (seeded C05_k)", "break",
+            [(SR, "        old_height = 99999\n", "        old_height = 99999\n        self.calculated_temperatures = {}\n"),
+             (SR, "            self.fieldDescriptors = self.nested_fieldDescriptors[i]\n            self.calculated_temperatures = {}\n", "            self.fieldDescriptors = self.nested_fieldDescriptors[i]\n")], "R05.3"),
+    Variant("per-list record of evaluations created with dict()", "benign",
+            [(SR, "            self.fieldDescriptors = self.nested_fieldDescriptors[i]\n            self.calculated_temperatures = {}\n", "            self.fieldDescriptors = self.nested_fieldDescriptors[i]\n            self.calculated_temperatures = dict()\n")]),
     Variant("midpoint counted as feasible when its excess is within 0.01 K of the limit (seeded C05_e)", "break",
             [(SR, "            c_sign = sign(c_t_excess)\n", "            c_sign = sign(c_t_excess) if abs(c_t_excess) > 1.0e-2 else -1\n")], "R05.2"),
     Variant("midpoint sign written as a conditional expression on the excess", "benign",
